@@ -13,5 +13,6 @@ Next == m.status = "run" /\ m.n < MaxSteps /\ m' = Step(m) /\ UNCHANGED pid
 Spec == Init /\ [][Next]_<<m, pid>>
 Emit == (m.status = "done" \/ m.n >= MaxSteps) =>
           PrintT(<<"RUN", ToJson([id |-> pid, runs |-> m.runs, out |-> m.out, result |-> m.result, trig |-> m.trig, oom |-> m.oom,
-                                   done |-> m.status = "done", steps |-> m.n])>>)
+                                   done |-> m.status = "done", steps |-> m.n,
+                                   heap |-> IF m.status = "done" /\ ~m.oom THEN LiveCounts(m) ELSE [exact |-> FALSE]])>>)
 ===============================================================================
